@@ -429,3 +429,13 @@ func init() {
 		return "<hex-of-symbolic-bytes>"
 	}
 }
+
+func init() {
+	externals["(*encoding/base64.Encoding).EncodeToString"] = func(fr *frame, a []value) value {
+		if _, ok := concBytes(a[1]); ok {
+			return fallthroughSSA{}
+		}
+		fr.i.m.Stubs["base64 text of symbolic bytes as placeholder"]++
+		return "<base64-of-symbolic-bytes>"
+	}
+}
